@@ -246,6 +246,22 @@ class Methods:
         acc = self.seq_access(st, v)
         if acc is not None:
             return [(st, SV(acc[0], "int"))]
+        if isinstance(v, Ref) and isinstance(st.heap[v.id], SetObj) and st.heap[v.id].of_list is not None:
+            # len(set(l)) for a symbolic list l: the number of distinct elements, a definitional function of l with
+            # 0 <= dc(l) <= len(l) and dc(l) = len(l) <=> no two positions of l hold the same element
+            lt, et = st.heap[v.id].of_list
+            key = "distinct_count_" + _tyname(et)
+            first = key not in self.ex.ufuncs
+            ls = m.sort(("list", et))
+            dc = self.ex.ufunc(key, [ls], z3.IntSort())
+            if first:
+                ln, at = m.lst_funcs(et)
+                l_, i_, j_ = z3.Const("l!dc", ls), z3.Int("i!dc"), z3.Int("j!dc")
+                m.global_axioms.append(z3.ForAll([l_], z3.And(0 <= dc(l_), dc(l_) <= ln(l_)), patterns=[dc(l_)]))
+                m.global_axioms.append(
+                    z3.ForAll([l_], (dc(l_) == ln(l_)) == z3.ForAll([i_, j_], z3.Implies(z3.And(0 <= i_, i_ < j_, j_ < ln(l_)), at(l_, i_) != at(l_, j_))), patterns=[dc(l_)])
+                )
+            return [(st, SV(dc(lt), "int"))]
         if self._is_set(st, v):
             t = self.ex.ty_of(st, v)
             card = self.ex.ufunc("card_" + _tyname(t[1]), [m.sort(t)], z3.IntSort())
@@ -321,7 +337,10 @@ class Methods:
             x = z3.Const(f"x!ts{fresh_id()}", m.sort(et))
             i = z3.Int(f"i!ts{fresh_id()}")
             term = z3.Lambda([x], z3.Exists([i], z3.And(0 <= i, i < n, el(i).term == x)))
-            return [(st, st.alloc(SetObj(sv=SV(term, ("set", et)), frozen=frozen)))]
+            of_list = None
+            if getattr(ex, "functional_lists", False) and isinstance(v, Ref) and isinstance(st.heap[v.id], ListObj) and st.heap[v.id].sv is not None and frozen is False:
+                of_list = (st.heap[v.id].sv.term, et)
+            return [(st, st.alloc(SetObj(sv=SV(term, ("set", et)), frozen=frozen, of_list=of_list)))]
         raise Unsupported(f"set() of {v!r}")
 
     def isinstance_(self, st, v, cls):
